@@ -270,8 +270,17 @@ def main():
             continue
         d = os.path.join(base, "m%d" % n)
         os.makedirs(d)
-        out = os.path.join(d, "out.bin" if m["cmd"] == "clone" else "out.cba")
+        # how the output is named on the command line (not a mode of Cli.tla: the same mode must behave the same for every spelling of the path)
+        pathform = rnd.choice(["abs", "rel", "dot", "sub"])
+        oname = "out.bin" if m["cmd"] == "clone" else "out.cba"
+        odir = os.path.join(d, "sub") if pathform == "sub" else d
+        os.makedirs(odir, exist_ok=True)
+        out = os.path.join(odir, oname)
+        out_arg = {"abs": out, "rel": oname, "dot": "./" + oname, "sub": "sub/" + oname}[pathform]
         roles = {out: "output"}
+
+        def listing():
+            return sorted(set(os.listdir(d)) - {"sub"}) + (sorted(os.listdir(odir)) if pathform == "sub" else [])
         run_env = dict(env)
         tail = m["out"] == "bd_tail"
         source, good_sum, wrong_sum, sfx = (source2, good_sum2, wrong_sum2, "2") if tail else (source1, good_sum1, wrong_sum1, "")
@@ -322,7 +331,7 @@ def main():
                 shutil.copy(os.path.join(fx, name), ap_)
                 roles[ap_] = "archive"
                 args.append(ap_)
-            args.append(out)
+            args.append(out_arg)
             args += ["--buffered-chunks", str(rnd.choice([1, 2, 8]))]
         else:
             args.append("compress")
@@ -336,7 +345,7 @@ def main():
                 args += ["-i", ip]
             if m["force"]:
                 args.append("--force-create")
-            args.append(out)
+            args.append(out_arg)
             args += chunk_args
             roles[str(__import__("pathlib").Path(out).with_suffix("..tmp"))] = "temp"
         tmp_path = str(__import__("pathlib").Path(out).with_suffix("..tmp"))
@@ -344,7 +353,7 @@ def main():
             open(tmp_path, "wb").write(rnd.randbytes(len(source) * 2 + 50000 if m["stale_tmp"] == "longer" else 11))
         tmp_before = file_state(tmp_path)
         before = file_state(out)
-        listing_before = sorted(os.listdir(d))
+        listing_before = listing()
         st = os.path.join(d, "strace.txt")
         cmd = ["strace", "-f", "-y", "-qq", "-s", "0", "-o", st, "-e",
                "trace=open,openat,creat,write,pwrite64,writev,pwritev,copy_file_range,sendfile,ftruncate,truncate,fallocate,unlink,unlinkat,rmdir,rename,renameat,renameat2,link,linkat,symlink,symlinkat,mkdir,mkdirat,mknod,mknodat"] + args
@@ -362,9 +371,9 @@ def main():
         if os.path.exists(st):
             os.unlink(st)
         after = file_state(out)
-        listing_after = sorted(os.listdir(d))
+        listing_after = listing()
         outdata = open(out, "rb").read() if after["exists"] else b""
-        evs = [dict(m, ev="scenario", n=n, src_len=len(source))]
+        evs = [dict(m, ev="scenario", n=n, src_len=len(source), pathform=pathform)]
         evs.append({"ev": "before", "exists": before["exists"], "len": before["len"], "digest": before["digest"], "listing": listing_before})
         evs += project(calls, roles, d)
         evs.append({"ev": "after", "exit": code, "msg": msg, "exists": after["exists"], "len": after["len"], "digest": after["digest"],
